@@ -197,6 +197,50 @@ class Gen:
         it, guard = f"i{self.fresh}", f"n{self.fresh}"
         return ("for", f"{it} = 0", f"{it} < {guard}", f"{it}++", ("block", body), it, guard, False)
 
+    def accum_stmts(self, vs):
+        """one loop-carried accumulation: each shape leaves a different set of admissible choices under a loop rule"""
+        r = self.r
+        acc = r.choice(vs)
+        others = [v for v in vs if v != acc] or vs
+        k = r.randrange(4)
+        self.sites += 1
+        if k == 0:
+            return [("s", f"{acc} = {acc} + {r.choice(others)};")]
+        if k == 1:
+            return [("s", f"{acc} = {r.choice(others)} + {acc};")]
+        t = r.choice(others)
+        u = r.choice(vs)
+        if k == 2:
+            return [("s", f"{acc} = {u} + {t};"), ("s", f"{t} = {acc};")]
+        return [("s", f"{acc} = {t} {r.choice(['+', '*'])} {u};"), ("s", f"{u} = {acc};")]
+
+    def branch_accumulate(self):
+        """a loop whose body is an if/else with loop-carried accumulations in BOTH branches: the branches' derivations are chosen
+        independently, and the loop's side condition usually leaves different admissible choices for each of them"""
+        vs = list(self.vars)
+        self.r.shuffle(vs)
+        half = max(1, len(vs) // 2)
+        va, vb = (vs[:half], vs[half:] or vs) if self.r.random() < 0.6 else (vs, vs)
+        th, el = [], []
+        for _ in range(self.r.choice([1, 1, 2])):
+            if self.sites < self.c.max_sites:
+                th += self.accum_stmts(va)
+        for _ in range(self.r.choice([1, 1, 2])):
+            if self.sites < self.c.max_sites:
+                el += self.accum_stmts(vb)
+        def wrap(ss):
+            if self.r.random() < 0.25:
+                return ("block", [("while", self.cond(), ("block", ss))])
+            return ("block", ss)
+        body = [("if", self.cond(), wrap(th or [("s", ";")]), wrap(el) if el else None)]
+        if self.r.random() < 0.3:
+            body.append(self.simple_nosite())
+        if self.r.random() < 0.6:
+            self.fresh += 1
+            it, guard = f"i{self.fresh}", f"n{self.fresh}"
+            return ("for", f"{it} = 0", f"{it} < {guard}", f"{it}++", ("block", body), it, guard, False)
+        return ("while", self.cond(), ("block", body))
+
     def tight_cycle(self):
         """a loop whose 2-3 assignments multiply/add a small set of variables in a cycle: often no derivation at all,
         and frequently in a way the delta graph does not detect (the verdict then comes from the choice evaluation)"""
@@ -234,6 +278,8 @@ class Gen:
             ss += self.tight_cycle()
         elif b == "for-accumulate":
             ss += [self.for_accumulate()]
+        elif b == "branch-accumulate":
+            ss += [self.branch_accumulate()]
         elif b == "loops-in-branches":
             ss += [("if", self.cond(), ("block", [self.stmt(1), self.loop(1)]), ("block", [self.loop(1), self.stmt(1)]))]
             ss += [self.loop(0)]
